@@ -62,17 +62,27 @@ func opbTerm(r *Rng, w, l int, first bool) string {
 	return fmt.Sprintf("%s%d%s%s", sign, w, sp, name)
 }
 
-func genOpbCase(r *Rng, tier string) OpbCase {
+func genOpbCase(r *Rng, tier string) OpbCase { return genOpbCaseMode(r, tier, r.Chance(1, 6)) }
+
+func genOpbCaseMode(r *Rng, tier string, small bool) OpbCase {
 	n := r.Range(1, 9)
 	m := r.Range(1, n+4)
+	// small: few variables, few constraints, an objective with tiny coefficients of either sign: optima around 0
+	if small {
+		n = r.Range(1, 4)
+		m = r.Range(1, 2)
+	}
 	var c OpbCase
 	var sb strings.Builder
 	if r.Chance(1, 2) {
 		sb.WriteString(fmt.Sprintf("* #variable= %d #constraint= %d\n", n, m))
 	}
 	c.Glued = r.Chance(1, 25)
-	if r.Chance(1, 2) {
+	if small || r.Chance(1, 2) {
 		k := r.Range(1, n)
+		if small {
+			k = r.Range(1, min2(n, 2))
+		}
 		c.CostLits = randClauseDistinct(r, n, k)
 		c.CostW = make([]int, k)
 		sb.WriteString("min:")
@@ -80,6 +90,9 @@ func genOpbCase(r *Rng, tier string) OpbCase {
 			c.CostW[i] = r.Range(0, 6)
 			if r.Chance(1, 10) {
 				c.CostW[i] = -r.Range(1, 5)
+			}
+			if small {
+				c.CostW[i] = r.Range(-2, 2)
 			}
 			if !(c.Glued && i == 0) {
 				sb.WriteString(" ")
